@@ -6,12 +6,13 @@ sd=$(cd $1 && pwd)
 wt=/tmp/wt/confirm_$$
 /verif/tools/mkworktree.sh confirm_$$ > /dev/null || exit 3
 cd $wt && git apply $sd/patch.diff || { echo "PATCH DOES NOT APPLY"; git -C /repo worktree remove --force $wt; exit 3; }
-if git diff --name-only | grep -q "pyx\|pxd"; then /venv/bin/python setup.py build_ext --inplace > /tmp/confirm_build.log 2>&1 || { echo "BUILD FAILED"; tail -5 /tmp/confirm_build.log; }; fi
+if git diff --name-only | grep -q "pyx\|pxd"; then /venv/bin/python setup.py build_ext --inplace > /tmp/confirm_build_$$.log 2>&1 || { echo "BUILD FAILED"; tail -5 /tmp/confirm_build_$$.log; }; fi
 mkdir -p $wt/_seed && cp $sd/*.py $sd/*.xml $wt/_seed/ 2>/dev/null
-cd $wt && PYTHONPATH=$wt /venv/bin/python _seed/demo.py > /tmp/demo_with.txt 2>&1; a=$?
+cd $wt && PYTHONPATH=$wt /venv/bin/python _seed/demo.py > /tmp/demo_with_$$.txt 2>&1; a=$?
 t=$(cd $wt && PYTHONPATH=$wt /venv/bin/python -m pytest -q -p no:cacheprovider --timeout=900 2>&1 | grep -E "passed|failed" | tail -1)
 rm -rf /tmp/seedrun_$$; mkdir -p /tmp/seedrun_$$/x/_seed; cp $sd/*.py $sd/*.xml /tmp/seedrun_$$/x/_seed/ 2>/dev/null
-cd /repo && PYTHONPATH=/repo /venv/bin/python /tmp/seedrun_$$/x/_seed/demo.py > /tmp/demo_without.txt 2>&1; b=$?
+cd /repo && PYTHONPATH=/repo /venv/bin/python /tmp/seedrun_$$/x/_seed/demo.py > /tmp/demo_without_$$.txt 2>&1; b=$?
 git -C /repo checkout -q -- tests; rm -rf /tmp/seedrun_$$
 git -C /repo worktree remove --force $wt
-echo "with-change exit=$a ($(tail -1 /tmp/demo_with.txt | cut -c1-140)); unchanged exit=$b ($(tail -1 /tmp/demo_without.txt | cut -c1-60)); tests: $t"
+echo "with-change exit=$a ($(tail -1 /tmp/demo_with_$$.txt | cut -c1-140)); unchanged exit=$b ($(tail -1 /tmp/demo_without_$$.txt | cut -c1-60)); tests: $t"
+rm -f /tmp/demo_with_$$.txt /tmp/demo_without_$$.txt /tmp/confirm_build_$$.log
